@@ -195,3 +195,36 @@ func BadF1Decode(h *rtp.Header, id uint8) uint16 {
 	}
 	return 0
 }
+
+// ---- F5 ---------------------------------------------------------------------------------------------------------------
+
+type f5cfg struct{ size int }
+
+func newF5cfg(n int) *f5cfg { return &f5cfg{size: n} }
+
+// GoodF5Ratio clamps the divisor first.
+func GoodF5Ratio(total, part int64) int64 {
+	if part < 1 {
+		part = 1
+	}
+	return total / part
+}
+
+// GoodF5Guard returns before dividing by zero.
+func GoodF5Guard(total int, xs []int) int {
+	n := len(xs)
+	if n == 0 {
+		return 0
+	}
+	return total / n
+}
+
+// BadF5Ratio tests the wrong thing: the duration may be non-zero while its millisecond count is zero.
+func BadF5Ratio(total int64, micros int64) int64 {
+	if micros == 0 {
+		micros = 1000
+	}
+	return total / (micros / 1000)
+}
+
+func (c *f5cfg) GoodF5Slot(seq int) int { return seq % c.size }
